@@ -168,11 +168,15 @@ def run(ctx):
     sim = runner.sharded_tlc(ctx, "GenScen", cfg.format(profile="sim", shard=0, nshards=1), 8 if q else 16,
                              "GenScen_sim", timeout=900, simulate=f"num={25 if q else 400}", depth=40,
                              seed=ctx.seed + 13)
-    cases = C04.dedup(cases + sim)
+    small = runner.sharded_tlc(ctx, "GenScen", cfg.format(profile="c08s", shard="@SHARD@", nshards="@NSHARDS@"), 8,
+                               "GenScen_c08s", timeout=900)
+    ctx.cov["scenarios_exhaustive_c08s"] = len(small)
+    cases = C04.dedup(small + cases + sim)
     if not cases:
         raise core.MachineryError("no scenarios")
     ctx.cov["rule"] = (
-        "TLC-simulated GenScen scenarios (profiles c08q: two mains sharing once/guarded/macro-testing/defining/undefining "
+        "every scenario of profile c08s (the same header name beside the includers and in a -I directory, quote and angle "
+        "form, two TUs on one or two platforms) and TLC-simulated GenScen scenarios (profiles c08q: two mains sharing once/guarded/macro-testing/defining/undefining "
         "headers, 2 TUs on 1-2 platforms; sim: 7 header slots, 3 TUs, 2 platforms, -include, computed includes); each is "
         "run through load_database+finder.find in full, split per command, with command and platform order reversed, and "
         "(sampled) through `codebasin -p` for every platform subset; every run is compared per physical line with the "
